@@ -33,7 +33,7 @@ ASSUMPTIONS = [
 
 def floors(tier):
     return {"clean": 800, "garbage": 800, "nontrivial": 500, "all-accepted": 100,
-            "filtered-frame-malformed": 100, "short-reads": 300}
+            "filtered-frame-malformed": 100, "short-reads": 300, "largest-frames": 200}
 
 
 def plan(tier, seed):
@@ -68,7 +68,7 @@ def check(case) -> core.Out:
     out = core.Out(classes=["clean" if clean else "garbage"] + (["short-reads"] if opts.get("_bursts") else []),
                    dig=core.digest((data, sorted((k, repr(v)) for k, v in opts.items()))))
     try:
-        ref, exc = run(data, dict(opts, protfilter=7, parsing=True))
+        ref, exc = run(data, dict(opts, protfilter=7, parsing=True if len(data) % 2 else 1))
     except S.HarnessHang:
         out.classes = ["skipped:hang(C08)"]
         return out
@@ -123,7 +123,8 @@ def check(case) -> core.Out:
     for F in (7, 2, 5):
         n += 1
         try:
-            raws_np, exc = run(data, dict(opts, protfilter=F, parsing=False))
+            # (the flag as False, or as the equal integer 0, for alternate masks)
+            raws_np, exc = run(data, dict(opts, protfilter=F, parsing=False if (F + len(data)) % 2 else 0))
         except S.HarnessHang:
             out.viol.append((f"{PROP}|hang|parsing=False", f"parsing=False run did not terminate on {data[:40].hex()}"))
             continue
@@ -175,6 +176,29 @@ def run_shard(spec, ctx, acc):
         ok = all(S.direct_parse(bytes(i["b"]), opts)[0] == "ok" for i in items if i["p"] != "noise")
         return {"kind": "filter", "items": items, "opts": opts, "clean": True, "all_accepted": ok}
 
+    # frames of every protocol at the upper end of what their length fields express,
+    # each followed by frames of the other protocols (deterministic, not left to chance)
+    import hashlib
+
+    corp = streams.corpus()
+    tail = [streams.item("nmea", corp["nmea"][spec["part"] % len(corp["nmea"])], "good"),
+            streams.item("rtcm", corp["rtcm"][spec["part"] % len(corp["rtcm"])], "good"),
+            streams.item("ubx", corp["ubx"][spec["part"] % len(corp["ubx"])], "good")]
+    sizes = [32766, 32767, 32768, 32769, 40000, 65533, 65534, 65535]
+    n = sizes[spec["part"] % len(sizes)]
+    body = hashlib.shake_256(bytes([spec["part"]])).digest(n)
+    bigs = [streams.item("ubx", S.codec.ubx_frame(b"\x04", b"\x02", body), "len>=256"),
+            streams.item("ubx", S.codec.ubx_frame(b"\x04", b"\x02", body)[:-1] + b"\x00", "badck"),
+            streams.item("rtcm", S.codec.rtcm_frame(bytes([0xFF, 0xF0]) + body[:1021]), "big"),
+            streams.item("nmea", S.codec.nmea_frame("GNTXT,01,01,02," + "A" * (n % 3000)), "huge")]
+    for big in bigs:
+        for qe in (0, 1):
+            for val in (1, 0):
+                case = {"kind": "filter", "items": tail[:1] + [big] + tail, "clean": True, "all_accepted": False,
+                        "opts": {"msgmode": 0, "validate": val, "parsebitfield": 1, "quitonerror": qe, "_bursts": None}}
+                o = core.checked(check, case)
+                o.classes = list(o.classes) + ["largest-frames"]
+                core.handle(acc, o, case, known)
     clean = st.tuples(streams.clean_streams(2, 6), OPTS).map(mk_clean)
     garb = st.tuples(streams.garbage_streams(8), OPTS).map(
         lambda t: {"kind": "filter", "items": t[0], "opts": t[1], "clean": False})
